@@ -29,7 +29,7 @@ PROPS = {
     'C14': {'design_ref': '§C14', 'not_decided': ['peeling yields each hop payload', 'filler correctness', 'HMAC tamper rejection', 'failure attribution']},
     'C15': {'design_ref': '§C15', 'not_decided': ['handshake acts (ECDH)', 'stream reassembly and back-pressure in peer_handler.rs', 'Init-before-anything', 'panic freedom of the peer handler']},
     'C16': {'design_ref': '§C16', 'not_decided': ['connectivity', 'capacity shared across paths', 'limits', 'does not report failure when a path exists (get_route)']},
-    'C17': {'design_ref': '§C17', 'not_decided': ['signature verification (secp256k1)', 'rejection of updates for unknown channels (map lookup)', 'removal of permanently failed channels and of nodes left without channels', 'order-independence and duplication-insensitivity of the whole graph (history property)', 'serialization of the graph', 'rapid-gossip-sync snapshots', 'that the sliced tests are applied on every path that stores information']},
+    'C17': {'design_ref': '§C17', 'not_decided': ['the signature on channel_update (secp_verify_sig! inside update_channel_internal) and the cryptography itself (uninterpreted)', 'rejection of updates for unknown channels (map lookup)', 'removal of permanently failed channels and of nodes left without channels', 'order-independence and duplication-insensitivity of the whole graph (history property)', 'serialization of the graph', 'rapid-gossip-sync snapshots', 'that the sliced tests are applied on every path that stores information']},
     'C18': {'design_ref': '§C18', 'not_decided': ['signatures', 'bech32 checksum', 'merkle roots', 'metadata HMACs', 'string-level parsing totality', 'BOLT-12 TLV streams']},
     'C19': {'design_ref': '§C19', 'not_decided': ['atomic map behaviour of FilesystemStore', 'crash recovery', 'clean-up call made from update_persisted_channel', 'update application order on read']},
     'C20': {'design_ref': '§C20', 'not_decided': ['the notification calls themselves (connect_blocks)', 'cache eviction', 'synchronize_listeners', 'behaviour under source errors', 'termination']},
